@@ -590,3 +590,22 @@ func (w *World) ExpandCalls(d DNF, depth int, keep func(*Term) bool) DNF {
 	}
 	return d
 }
+
+// ArgTerms: the terms the idx-th argument of the call can denote: its static term and its
+// per-path resolutions (a local or phi assigned on the way resolves to what was assigned).
+func (w *World) ArgTerms(site ssa.Instruction, idx int) []*Term {
+	c := callInstrCommon(site)
+	if c == nil || idx >= len(c.Args) {
+		return nil
+	}
+	out := []*Term{w.TS.Of(c.Args[idx])}
+	seen := map[string]bool{out[0].String(): true}
+	for _, alt := range w.FE.StateBefore(site) {
+		t := w.FE.Resolve(alt, c.Args[idx])
+		if !seen[t.String()] {
+			seen[t.String()] = true
+			out = append(out, t)
+		}
+	}
+	return out
+}
